@@ -25,13 +25,16 @@ claim('C16',
       "Theorems over the reals about the formulas GENERATED from /repo on every run (symbolic tracing of earth.py, "
       "the geodetic functions of transform.py and the compiled gravity copy): ECEF point on the WGS-84 ellipsoid, "
       "altitude along the ellipsoid normal, NED frame columns = north/east/down, orthonormal and right-handed, "
-      "partial derivatives of ECEF = (pi/180) x principal radii x frame axes (is_derive), perturb/difference "
-      "first-order identity, gravity copies equal, gravitation = gravity - centrifugal, parities, Earth rate = "
-      "frame's image of the polar axis. Partial: accuracy of Olson's ecef_to_lla series, the curvature matrix and "
-      "lla_to_ned first-order statements are checked numerically on the implementation only.",
+      "partial derivatives of ECEF = (pi/180) x principal radii x frame axes (is_derive), perturb/difference and "
+      "lla_to_ned first-order identities (full 3x3 Jacobian), curvature matrix = rotation rate of the NED frame under "
+      "displacement in any direction, gravity copies equal, gravitation = gravity - centrifugal, parities, Earth rate "
+      "= frame's image of the polar axis; ecef_to_lla: longitude = atan2 on every path and round trip off the axis, the "
+      "final step is exactly one Newton step of the forward map (so an exact series guess gives the exact inverse), "
+      "exact round trips on the equatorial plane and the polar axis. Partial: the accuracy of Olson's series guess is "
+      "proved (Interval, thorough tier) only on the ellipsoid surface; elsewhere the round trip is checked numerically.",
       COMMON_NOTE + "Translator tools/sym.py+ir2coq.py trusted for recording the operations numpy applied; "
-      "validated every run by evaluating the IR against the real functions (60 inputs per function, 1e-11).",
-      "Rocq proof over generated real-number model (translator: symbolic tracing), Coquelicot is_derive, field/nra",
+      "validated every run by evaluating the IR and the printed Coq text against the real functions.",
+      "Rocq proof over generated real-number model (translator: symbolic tracing), Coquelicot is_derive, field/nra, Interval",
       "DESIGN.md 4/C16")
 
 claim('C18',
